@@ -33,10 +33,10 @@ def nontrivial(d):
     if d.get("kind") == "ctrl":
         return d["n"] > 0
     if d.get("kind") == "table":
-        v = [z[1] for z in d["zones"]]
+        v = [abs(z[1]) for z in d["zones"]]
         return any(v[i] < v[i - 1] for i in range(1, len(v)))          # a braking curve other than the final stop
     vmax = min(c["vmax"] for c in d["train"]["cars"])
-    return any(r[2] < vmax for l in d["links"] for r in l["rs"])
+    return any(abs(r[2]) < vmax for l in d["links"] for r in l["rs"])
 
 
 def vacuity(r):
@@ -180,11 +180,14 @@ GROUP = dict(
     model_spec="MCBrakingCurve.tla", trace_spec="ControlTrace.tla", trace_cfg="ControlTrace.cfg",
     models={
         "quick": [dict(cfg="MCBrakingCurve_quick.cfg", emit=True, max_emit=1000, workers=8, timeout=300),
+                  # the same profiles with sign-encoded (negative) limits
+                  dict(cfg="MCBrakingCurve_signed.cfg", emit=True, max_emit=600, workers=8, timeout=300),
                   # the controller composed with the table: every admitted quick profile x environment x every force
                   # choice at every step (exhaustive), then scripted runs emitted for the step-by-step replay
                   dict(spec="MCController.tla", cfg="MCController_quick.cfg", emit=False, workers=8, timeout=600),
                   dict(spec="MCController.tla", cfg="MCController_replay.cfg", emit=True, max_emit=600, workers=8, timeout=300)],
         "thorough": [dict(cfg="MCBrakingCurve_quick.cfg", emit=True, workers=8, timeout=300),
+                     dict(cfg="MCBrakingCurve_signed.cfg", emit=True, max_emit=8000, workers=8, timeout=300),
                      dict(cfg="MCBrakingCurve_thorough.cfg", emit=True, max_emit=20000, workers=16, timeout=1800),
                      dict(spec="MCController.tla", cfg="MCController_thorough.cfg", emit=False, workers=16, timeout=900),
                      dict(spec="MCController.tla", cfg="MCController_live.cfg", emit=False, workers=8, timeout=900),
@@ -220,6 +223,8 @@ GROUP = dict(
                   # shorter than the stretch with speed_target = 0 (F-C03-2)
                   dict(spec="MCController.tla", cfg="MCController_shortwindow.cfg", expect=["CPosted", "CNoPanic"]),
                   dict(spec="MCController.tla", cfg="MCController_stall.cfg", expect=["CProgress", "CStopWindow"]),
+                  # recalc without the .abs() in its curve-needed test: no curve after a sign-encoded zone
+                  dict(spec="MCController.tla", cfg="MCController_noabs.cfg", expect=["CPosted", "CNoPanic"]),
                   dict(cfg="MCBrakingCurve_underflow.cfg", expect=["NoUnderflow"])],
     # ... and every monitor of the trace spec must fail at exactly the record that was corrupted
     corrupt=CORRUPT, selftest_cases=12,
